@@ -253,6 +253,9 @@ func (e *Engine) SetLongest(longest bool) {
 	if e.boundedBacktracker != nil {
 		e.boundedBacktracker.SetLongest(longest)
 	}
+	if e.asciiBoundedBacktracker != nil {
+		e.asciiBoundedBacktracker.SetLongest(longest)
+	}
 }
 
 // searchStrategy returns the strategy that locates matches for the current
